@@ -51,7 +51,8 @@ def main():
     ap.add_argument("--benign", action="store_true")
     ap.add_argument("-v", action="store_true")
     a = ap.parse_args()
-    res = run_on_patch(a.patch, [p.upper() for p in a.props.split(",")], quiet=not a.v)
+    props = ["C%02d" % i for i in range(1, 21)] if a.props.upper() == "ALL" else [p.upper() for p in a.props.split(",")]
+    res = run_on_patch(a.patch, props, quiet=not a.v)
     bad = False
     for p, (code, keys, reasons) in res.items():
         print("%s exit=%d findings=%s" % (p, code, keys))
